@@ -281,6 +281,13 @@ class Function:
                         for c_ in x["caps"]:
                             if c_.get("d") in ren and "n0" not in c_:
                                 c_["n0"], c_["n"] = c_.get("n"), ren[c_["d"]]
+                if x.get("k") == "bin" and x.get("op") in (">", ">=") and len(x.get("c", ())) == 2 and "flipped" not in x:
+                    # canonical orientation of built-in comparisons: `a > b` is represented as `b < a` (rules then see one form only)
+                    x["c"] = [x["c"][1], x["c"][0]]
+                    x["op"] = "<" if x["op"] == ">" else "<="
+                    x["flipped"] = True
+                    if "span" in x:
+                        x.pop("span")
                 nodes.setdefault(x["i"], x)
                 parent[x["i"]] = p
                 for ch in reversed(x.get("c", ())):
